@@ -203,14 +203,13 @@ pub fn parse_op(op: &str) -> Option<Sexp> {
 /// F3: algorithm-switch thresholds ("buggify" knobs), drawn per run.
 pub fn draw_knobs(case: &mut Case, rng: &mut crate::rng::Rng) {
     let mut m = serde_json::Map::new();
-    let table: [(&str, &[u64]); 7] = [
+    let table: [(&str, &[u64]); 6] = [
         ("table_incremental_rebuild", &[0, 1]),
         ("container_incremental_rebuild", &[0, 1]),
-        ("bridge_incremental_rebuild", &[0, 1]),
         ("rehash_min_stale", &[0, 1, 4]),
-        ("merge_all_fast_path", &[0, 1]),
         ("rebuild_step_size", &[1, 2, 7]),
         ("stage_resort_threshold", &[0, 1, 4]),
+        ("trie_inline_max", &[0, 1, 3]),
     ];
     for (k, vals) in table {
         if rng.chance(1, 2) {
